@@ -367,6 +367,24 @@ def run_case(ck, desc):
         if not (np.array_equal(c_before, c_after, equal_nan=True) and np.array_equal(l_before, l_after, equal_nan=True)):
             ck.violation("object-independent-of-later-edits-of-the-callers-table", {"form": form, "max_rel_change_c": float(np.nanmax(np.abs(c_after / c_before - 1))), "max_rel_change_lambda": float(np.nanmax(np.abs(l_after / l_before - 1)))}, desc)
         ck.count(f"objects_re-evaluated_after_caller_edited_table.{form}")
+    # the densities mapping as a row of a fluids table that carries MORE entries, named like things the docs
+    # mention (a reference density, porosity, saturations): the three documented keys are read and nothing else
+    decoys = {"rho_ref": 62.4, "rho_std": 1000.0, "rho": 3.0, "rho_o": 55.0, "rho_g": 0.07, "rho_w": 64.0, "rho_ref0": 2.0, "phi": 0.9, "Sw": 0.5, "So": 0.3, "p_i": 1234.0}
+    with warnings.catch_warnings(), np.errstate(all="ignore"):
+        warnings.simplefilter("ignore")
+        try:
+            obj_k = fp.FlowPropertiesTwoPhase.from_table({k: np.array(v, dtype=float, copy=True) for k, v in cols.items()}, df_kr, dict(decoys, **refd), phi, Sw, float(P[ki]))
+            same_ = all(np.array_equal(np.asarray(obj_k.pvt_props[c_], dtype=float), np.asarray(obj.pvt_props[c_], dtype=float), equal_nan=True) for c_ in ("alpha", "m-scaled"))
+            l_plain = np.asarray(fp.lambda_combined_func(pe, Soe, pvt_lib, kr_lib), dtype=float)
+            c_plain = np.asarray(fp.compressibility_combined_func(pe, Soe, phi, Sw, pvt_lib), dtype=float)
+            pvt_more = dict(decoys, **{k_: pvt_lib[k_] for k_ in pvt_lib})
+            l_more = np.asarray(fp.lambda_combined_func(pe, Soe, pvt_more, kr_lib), dtype=float)
+            c_more = np.asarray(fp.compressibility_combined_func(pe, Soe, phi, Sw, pvt_more), dtype=float)
+            if not (same_ and np.array_equal(l_plain, l_more, equal_nan=True) and np.array_equal(c_plain, c_more, equal_nan=True)):
+                ck.violation("reads-the-documented-densities-only", {"tabulated_columns_equal": bool(same_), "max_rel_change_lambda": float(np.nanmax(np.abs(l_more / np.where(l_plain == 0, 1, l_plain) - 1))), "max_rel_change_c": float(np.nanmax(np.abs(c_more / np.where(c_plain == 0, 1, c_plain) - 1)))}, desc)
+            ck.count("objects_built_from_mappings_with_further_entries")
+        except Exception as e:  # noqa: BLE001
+            ck.violation("reads-the-documented-densities-only", {"raised": repr(e)[:200]}, desc)
     # ... and after the caller edits the DENSITIES mapping it passed (one working dict in a density
     # sensitivity loop) and builds the next object from it: the first object keeps the densities it was given
     dens_work = dict(refd)
